@@ -399,7 +399,15 @@ pub fn run_history(ops: &[WOp], policy: SinkPolicy, sink_seed: u64, cap: usize, 
                     *pending_failures += 1;
                     *failures += 1;
                 }
-                SinkEv::Flush => {}
+                SinkEv::Flush => {
+                    // the sink's own flush() is a call to the sink as well
+                    if *pending_failures > 0 {
+                        problems.push(format!(
+                            "{}: the sink's flush() was called while a failure was parked (between the failure and its report)",
+                            opname
+                        ));
+                    }
+                }
                 SinkEv::Panic => {
                     *sink_panicked = true;
                 }
